@@ -106,6 +106,29 @@ Theorem C18_rollback_can_succeed :
 Proof. exact reachable_rollback_succeeds. Qed.
 Print Assumptions C18_rollback_can_succeed.
 
+(* "an upgrade CAN complete": from any reachable state — in particular after the process died at any labelled point and
+   the operator retries with ForceRetry — an apply that meets no further fault, no obstacle at a staging name, no
+   directory on an artifact path and valid modes never stops half-way: it completes and reports success, or it refuses
+   and leaves the world exactly as it was (inadmissible tarball; interrupted upgrade and no ForceRetry or another
+   artifact set).  With C18_no_mixed_success the success case has every artifact at the new version. *)
+Theorem C18_apply_completes_or_refuses :
+  forall c f ops T Q F, let w := reach c f ops in
+  quiet_apply T F -> (forall p, obst w p = None) ->
+  (forall a, In a (t_arts T) -> fs w (a_path a) <> Some Dir) ->
+  (exists w', apply repaired T Q F w = (w', ROk)) \/ apply repaired T Q F w = (w, RErr).
+Proof. exact apply_quiet. Qed.
+Print Assumptions C18_apply_completes_or_refuses.
+
+(* on a box that is not mid-upgrade an admitted tarball does complete *)
+Theorem C18_fresh_apply_completes :
+  forall c f ops T Q F, let w := reach c f ops in
+  quiet_apply T F -> (forall p, obst w p = None) ->
+  (forall a, In a (t_arts T) -> fs w (a_path a) <> Some Dir) ->
+  admits T Q w = true -> resume w = false ->
+  exists w', apply repaired T Q F w = (w', ROk).
+Proof. exact fresh_apply_completes. Qed.
+Print Assumptions C18_fresh_apply_completes.
+
 (* the liveness premise read off the disk: a journal that exists and is past "started" *)
 Theorem C18_post_snapshot_observable :
   forall c f ops j, let w := reach c f ops in
@@ -324,6 +347,20 @@ Proof.
   split; vm_compute; reflexivity.
 Qed.
 Print Assumptions C18_nonvacuous_death_before_manifest_saved.
+
+(* non-vacuity: the process died mid-swap; a ForceRetry of the same tarball meets the premises and completes *)
+Example C18_nonvacuous_retry_completes :
+  exists w1 w',
+    reach 1 fs_ex [OpApply (tar_ex 2 PrevNone) no_opts dies_mid_swap; OpClear] = w1 /\ resume w1 = true /\
+    quiet_apply (tar_ex 2 PrevNone) no_faults /\ (forall p, obst w1 p = None) /\
+    apply repaired (tar_ex 2 PrevNone) force no_faults w1 = (w', ROk) /\
+    ofile_eqb (fs w' 0) (Some (Reg 20 493)) = true /\ ofile_eqb (fs w' 1) (Some (Reg 21 420)) = true.
+Proof.
+  do 2 eexists. split; [reflexivity|]. split; [vm_compute; reflexivity|].
+  split; [repeat split; intros a [<-|[<-|[]]]; discriminate|]. split; [intros p; vm_compute; reflexivity|].
+  split; [vm_compute; reflexivity|]. split; vm_compute; reflexivity.
+Qed.
+Print Assumptions C18_nonvacuous_retry_completes.
 
 Example C18_nonvacuous_inadmissible :
   inadmissible (tar_ex 3 (Prev 2 true)) (init_world 1 fs_ex) /\
